@@ -116,6 +116,14 @@ Proof. exact inst_accepted_canonical. Qed.
 Theorem C13_laws_satisfiable : exists E : EdOps, EdLaws E /\ @smul E 1 G <> @smul E 0 G.
 Proof. exists toy_ops. split; [exact toy_laws|exact toy_nontrivial]. Qed.
 
+(* the three laws of EdLaws that are PROVED for the executable instance (the others are validated by computation only:
+   Proofs/EdKAT.v and the correspondence run) *)
+Theorem C13_instance_laws_proved :
+  (forall P : @point ed25519_ops, length (compress P) = 32%nat) /\
+  (forall P Q : @point ed25519_ops, padd P Q = padd Q P) /\
+  (forall P Q : @point ed25519_ops, valid P -> valid Q -> (peqb P Q = true <-> P = Q)).
+Proof. split; [exact inst_compress_len|split; [exact inst_padd_comm|exact inst_peqb_eq]]. Qed.
+
 (* non-vacuity / sanity on the concrete arithmetic (curve known-answer tests are in Proofs/EdKAT.v) *)
 Example C13_ex_l_minus_1 : sk_from_slice (sk_to_bytes (ell - 1)) = Ok (ell - 1) /\ sk_from_slice (sk_to_bytes ell) = Err EBad.
 Proof. split; vm_compute; reflexivity. Qed.
@@ -172,6 +180,10 @@ Check C13_public_canonical_range : forall k, @pk_from_slice ed25519_ops k = Ok k
     0 <= x < Ed25519.fp /\ 0 <= y < Ed25519.fp /\ le2z k = y + (x mod 2) * 2 ^ 255 /\
     le2z k mod 2 ^ 255 = y /\ (x = 0 -> le2z k < 2 ^ 255).
 Check C13_laws_satisfiable : exists E : EdOps, EdLaws E /\ @smul E 1 G <> @smul E 0 G.
+Check C13_instance_laws_proved :
+  (forall P : @point ed25519_ops, length (compress P) = 32%nat) /\
+  (forall P Q : @point ed25519_ops, padd P Q = padd Q P) /\
+  (forall P Q : @point ed25519_ops, valid P -> valid Q -> (peqb P Q = true <-> P = Q)).
 
 Print Assumptions C13_secret.
 Print Assumptions C13_secret_roundtrip.
@@ -191,3 +203,4 @@ Print Assumptions C13_closed_partial.
 Print Assumptions C13_panic_only_if_undecodable.
 Print Assumptions C13_public_canonical_range.
 Print Assumptions C13_laws_satisfiable.
+Print Assumptions C13_instance_laws_proved.
